@@ -1,7 +1,7 @@
 //! C13 — Block fetching survives any reply sequence and interleaving.
 use super::common::*;
 use crate::engine::{fnv, Outcome, Property, Tier};
-use crate::hb::{hb_cfg, mine_strategy, plan_strategy, scenario_brief, Ev, HbInfo, HbWorld, MineSpec, ReplyKind, ReplyPlan, Scenario};
+use crate::hb::{hb_cfg, mine_strategy, plan_strategy, HbInfo, HbWorld, MineSpec, ReplyKind, ReplyPlan};
 use crate::model::H32;
 use crate::snapshot;
 use crate::sut::{self, SutConfig};
@@ -305,22 +305,17 @@ impl Property for C13 {
         ]
     }
     fn brief(&self, case: &Case13) -> serde_json::Value {
-        let sc = Scenario {
-            threshold: case.threshold,
-            pool: case.pool.clone(),
-            evs: case
-                .evs
-                .iter()
-                .map(|e| match e {
-                    Ev13::Mine(m) => Ev::Mine(m.clone()),
-                    Ev13::Plan(p) => Ev::Plan(p.clone()),
-                    Ev13::Beat => Ev::Beat(None),
-                    Ev13::Overlapped { extra, .. } => Ev::Beat(Some(100 + *extra as u16)),
-                    Ev13::Upgrade => Ev::Upgrade,
-                })
-                .collect(),
-        };
-        scenario_brief(&sc)
+        serde_json::json!({
+            "threshold": case.threshold,
+            "pool": case.pool.iter().map(|p| format!("{:?}", p)).collect::<Vec<_>>(),
+            "events": case.evs.iter().map(|e| match e {
+                Ev13::Mine(m) => format!("Mine(parent_sel={}, tip={}, cb_outs={}, txs={}, dt={})", m.parent, m.prefer_tip, m.coinbase.len(), m.txs.len(), m.dt),
+                Ev13::Plan(p) => format!("Plan({:?})", p),
+                Ev13::Beat => "Heartbeat".to_string(),
+                Ev13::Overlapped { extra, order, query } => format!("OverlappedHeartbeats(n={}, release_order={:?}, queries_in_between={})", 1 + (*extra).clamp(1, 2), order, query),
+                Ev13::Upgrade => "Upgrade".to_string(),
+            }).collect::<Vec<_>>(),
+        })
     }
     fn required_classes(&self, _tier: Tier) -> Vec<&'static str> {
         vec!["heartbeats_overlapped_at_await_point", "reject_between_pages", "reject_of_initial", "split_completed", "liveness_checked", "upgrade_between_pages"]
